@@ -13,7 +13,7 @@ TRUSTED = [
     "primality / reductions and square root / polynomials); 'partial' there means: the theorem holds whenever the model returns, and the model checks on every line "
     "what is not proved (termination / no overflow) instead of assuming it",
     "class C (compared with the mathematical definition evaluated in Lean, not modelled): bn_mod_basic / bn_mod with three arguments (= the division of C01), "
-    "bn_mxp_sim_lot (not presented), bn_is_prime_solov on composite inputs (random bases), prime generation "
+    "bn_is_prime_solov on composite inputs (random bases), prime generation "
     "(bn_gen_prime_*: length, oddness and primality of the output below 2^80), operands longer than RLC_BN_DIGS (may be refused), moduli <= 0 or = 1 of bn_evl / bn_lag, "
     "multi-digit moduli of bn_smb_jac (model executed and tied; theorem only for one-digit moduli and for the single-digit loop)",
     "primality ground truth: deterministic Miller-Rabin below 2^80 in the driver; above that only numbers with a supplied factor (composites) "
